@@ -7,12 +7,13 @@ Local Open Scope N_scope.
 (* input: the two table states (cells are interned value ids, NULL = None), whether the
    second commit also changed the schema (then only the round trip is predicted), and
    byte strings for the literal encoder *)
-Record input := { i_a : content; i_b : content; i_schema : bool; i_strs : list bytes }.
+Record input := { i_a : content; i_b : content; i_schema : bool; i_sa : tschema; i_sb : tschema; i_strs : list bytes }.
 
 Record obs := {
   o_diff : list (dentry * N);           (* dolt_diff(): entry, diff_type *)
   o_diffsys : list (dentry * N);        (* dolt_diff_t *)
   o_counts : N * N * N;                 (* INSERT / UPDATE / DELETE statements of dolt_patch *)
+  o_ddl : N * N * N * N;                (* ALTER TABLE ... ADD / DROP / RENAME COLUMN / MODIFY COLUMN statements of dolt_patch *)
   o_rt : content;                       (* table after executing the patch on the first commit *)
   o_rt_ok : bool;                       (* no statement failed, rows and SHOW CREATE TABLE equal the second commit *)
   o_lits : list (bytes * option bytes)  (* literal produced, what the tokenizer read back *)
@@ -23,6 +24,7 @@ Definition model_obs (i : input) : obs :=
   let d := if i_schema i then [] else map (fun e => (e, dtype e)) (diff (i_a i) (i_b i)) in
   {| o_diff := d; o_diffsys := d;
      o_counts := if i_schema i then (0, 0, 0) else count_kind (patch_stmts (i_a i) (i_b i));
+     o_ddl := ddl_counts (schema_patch (i_sa i) (i_sb i));
      o_rt := norm (apply_stmts (i_a i) (patch_stmts (i_a i) (i_b i)));
      o_rt_ok := true;
      o_lits := map (fun s => (quote s, unquote (quote s))) (i_strs i) |}.
@@ -41,7 +43,11 @@ Definition obytes_eqb (a b : option bytes) : bool :=
 Definition counts_eqb (x y : N * N * N) : bool :=
   let '(a, b, c) := x in let '(a', b', c') := y in (a =? a') && (b =? b') && (c =? c').
 
+Definition ddl_eqb (x y : N * N * N * N) : bool :=
+  let '(a, b, c, d) := x in let '(a', b', c', d') := y in (a =? a') && (b =? b') && (c =? c') && (d =? d').
+
 Definition obs_eqb (m o : obs) (schema : bool) : bool :=
+  ddl_eqb (o_ddl m) (o_ddl o) &&
   (schema || (list_eqb dentry_eqb (o_diff m) (o_diff o) && list_eqb dentry_eqb (o_diffsys m) (o_diffsys o)
               && counts_eqb (o_counts m) (o_counts o)))
   && content_eqb (o_rt m) (o_rt o) && Bool.eqb (o_rt_ok m) (o_rt_ok o)
@@ -49,6 +55,8 @@ Definition obs_eqb (m o : obs) (schema : bool) : bool :=
 
 (* The property on the implementation's observations:
    - both diff sources list exactly the differing rows with correct from / to and type;
+   - the ALTER statements of the patch are exactly the schema changes: as many ADD / DROP / RENAME /
+     MODIFY COLUMN statements as columns were added / dropped / renamed / retyped;
    - executing the patch on the first commit gives the second commit (rows; schema and
      statement errors are compared by the harness and reported in o_rt_ok);
    - every string literal produced reads back as the string. *)
@@ -64,6 +72,7 @@ Fixpoint lits_ok (ss : list bytes) (ls : list (bytes * option bytes)) : bool :=
 
 Definition oracle (i : input) (o : obs) : bool :=
   (i_schema i || (diff_obs_ok (i_a i) (i_b i) (o_diff o) && diff_obs_ok (i_a i) (i_b i) (o_diffsys o)))
+  && ddl_eqb (o_ddl o) (schema_delta_counts (i_sa i) (i_sb i))
   && o_rt_ok o && ext_eqb (o_rt o) (i_b i)
   && lits_ok (i_strs i) (o_lits o).
 
